@@ -2142,3 +2142,11 @@ Theorem fmt_run_idempotent_all cfg r : fmt_run cfg (fmt_run cfg r) = fmt_run cfg
 Proof.
   destruct (f_at_end cfg) eqn:E; [apply fmt_run_idempotent_end | apply fmt_run_idempotent]; exact E.
 Qed.
+
+(* ---------- a known finding at the very end of the file ----------
+   strip_line_edges keeps the blanks that follow the last line of the run; they cannot be dropped from the
+   norm: at the end of the file an empty run stays empty (no final newline is written) while a run of
+   blanks becomes one newline. *)
+Lemma fmt_run_end_blanks_refuted :
+  exists cfg r1 r2, f_at_end cfg = true /\ rstrip r1 = rstrip r2 /\ fmt_run cfg r1 <> fmt_run cfg r2.
+Proof. exists (mk_fcfg false true 2 0), [], [SP; SP]. split; [reflexivity|]. split; [reflexivity|]. vm_compute. discriminate. Qed.
